@@ -15,7 +15,7 @@ func (World) Properties() []string { return []string{"C09", "C10"} }
 func (World) Real(prop string) []string {
 	r := []string{"data/state.AccountsDB (Commit/markForEviction, PruneTrie, CancelPrune, RecreateTrie, RevertToSnapshot)",
 		"data/state/storagePruningManager (prune, cancel, buffered pruning) + pruningBuffer", "evictionWaitingList (cache + spill DB)",
-		"data/trie.patriciaMerkleTrie, trieStorageManager (pruning-blocked counter, Remove)", "core/queue.sliceQueue (state pruning queue)",
+		"data/trie.patriciaMerkleTrie, trieStorageManager (pruning-blocked counter, Remove)", "core/queue.sliceQueue (state pruning queue)", "process/block.baseProcessor.updateStateStorage and PruneStateOnRollback (via verif hook)",
 		"storage/storageUnit.Unit + lrucache", "marshal.GogoProtoMarshalizer, hashing/blake2b"}
 	if prop == "C10" {
 		r = append(r, "AccountsDB.SnapshotState / SetStateCheckpoint and their goroutines", "trieStorageManager.storageProcessLoop, takeSnapshot, commitSnapshot/commitCheckpoint of the node types",
@@ -26,7 +26,7 @@ func (World) Real(prop string) []string {
 
 func (World) Stub(prop string) []string {
 	s := []string{"disk: simkit.SimDisk for the trie DB and for the waiting list's spill DB (read/remove error injection, survives restarts)",
-		"block processor: the driver mirrors baseProcessor.updateStateStorage (queue.Add, CancelPrune(NewRoot), PruneTrie(OldRoot)), PruneStateOnRollback (CancelPrune(prev, OldRoot), PruneTrie(cur, NewRoot)) and RevertStateToBlock (RecreateTrie); the block processor itself is not instantiated",
+		"block processor: the real baseProcessor.updateStateStorage and PruneStateOnRollback are called through the verif hook on an otherwise empty processor (the model only keeps the books of which block the protocol prunes); RevertStateToBlock is mirrored (RecreateTrie of the previous root); header sequence, finality and rollback decisions come from the plan",
 		"restart: AccountsDB stack rebuilt over the same disks on the head root; the pruning queue and the waiting list's in-memory part are lost"}
 	if prop == "C10" {
 		s = append(s, "scheduler: snapshot / checkpoint goroutines are real but parked at every main-DB access (gate in front of the storage unit, no lock held) and released one access at a time by plan steps; testing/synctest is the quiescence barrier and the clock (BatchDelaySeconds sleep)")
@@ -50,7 +50,7 @@ func (World) Assumptions(prop string) []string {
 
 func (World) Rule(prop string) string {
 	if prop == "C09" {
-		return "(thorough tier: a third of the runs have 60-160 steps, up to ~100 blocks) 5-40 blocks over 2-4 accounts with data tries created/modified/removed: block (mutations+Commit) / abort (mutations+RevertToSnapshot(0)) / finalize (real slice queue 0-5) / rollback of the non-final head / block-unblock pruning / restart; knobs: waiting-list cache 1-100, pruning buffer 1-1000, maxTrieLevelInMemory, cache; arms: monotone (every block bumps a nonce: roots never recur) and recurring (tiny value sets); non-trivial = at least one prune was issued after a state change and one rollback or buffered prune happened; distinct = hash of full plan"
+		return "(thorough tier: a third of the runs have 60-160 steps, up to ~100 blocks) 5-40 blocks over 2-4 accounts with data tries created/modified/removed: block (mutations+Commit) / abort (mutations+RevertToSnapshot(0)) / finalize (real slice queue 0-5) / rollback of the non-final head / block-unblock pruning / restart; knobs: waiting-list cache 1-100, pruning buffer 1-1000, maxTrieLevelInMemory, cache; empty blocks (Commit without change); arms: monotone (every block bumps the nonce of a counter account: root values never recur), monotone+snapshots (real snapshot/checkpoint workers next to the history, in a synctest bubble), monotone+faults and recurring (tiny value sets); non-trivial = at least one prune was issued after a state change and one rollback or buffered prune happened; distinct = hash of full plan"
 	}
 	return "C09 histories (<=25 blocks) plus SnapshotState / SetStateCheckpoint of final roots; background goroutines parked at every main-DB access and advanced by release steps while the driver keeps committing, finalizing (pruning) and rolling back; non-trivial = a snapshot or checkpoint completed and was verified while >=1 commit or prune call happened between its start and its end; distinct = hash of full plan"
 }
